@@ -211,7 +211,7 @@ Names(sc) == Map(sc, LAMBDA e : e[1])
 Doms(sc)  == Map(sc, LAMBDA e : e[2])
 
 TablesOf(sc, lo, hi, title) ==
-    {[header |-> Names(sc), rows |-> rs, title |-> title, index |-> ""] :
+    {[header |-> Names(sc), rows |-> rs, title |-> title, index |-> "", ints |-> "python"] :
         rs \in UNION {[1..n -> Prod(Doms(sc))] : n \in lo..hi}}
 
 (* a table whose index_name is c: the index column is the first column of the object, *)
@@ -246,6 +246,15 @@ UnaryTables(profile) == UNION {TablesOf(e[1], 0, e[2], T1) : e \in UnarySchemas}
 UnaryIndexRows == IF Profile = "quick" THEN 2 ELSE 3
 UnaryIndexChoices(t) == IF Len(t.rows) <= UnaryIndexRows THEN IndexChoices(t) ELSE {""}
 
+(* How the whole numbers of a column are STORED is a representation dimension: python ints (numpy   *)
+(* int64) or a numpy array of a narrower / unsigned integer type.  The list-of-rows answers are the  *)
+(* same for every representation, so the field only tells the harness how to build the real table.  *)
+IntReprs == IF Profile = "quick" THEN {"uint8"} ELSE {"uint8", "int8", "uint16", "int32"}
+IntReprChoices(t) ==
+    {"python"} \cup (IF /\ Len(t.rows) \in 1..2
+                         /\ \E c \in Range(t.header) : {x \in Range(Col(t, c)) : Tag(x) # "i"} = {}
+                      THEN IntReprs ELSE {})
+
 (* pairs for joins / appended: duplicate keys on both sides, a missing key value *)
 LeftSchema  == IF Profile = "quick"
                THEN <<<<"k", Ints2>>, <<"s", Strs2>>>>
@@ -270,7 +279,7 @@ BigTable(n, m) ==
      rows   |-> [i \in 1..n |-> <<I(DecText((7 * i * i + 3 * i + m) % 3)),
                                   S(IF (i * i + m) % 2 = 0 THEN sA ELSE sB),
                                   I(DecText(i))>>],
-     title  |-> T1, index |-> ""]
+     title  |-> T1, index |-> "", ints |-> "python"]
 BigTables(profile) == {BigTable(n, m) : n \in BigSizes, m \in 0..1}
 
 (* LONG family: the list-of-rows model does not depend on the number of rows, an implementation may *)
@@ -289,13 +298,14 @@ LongKinds == {<<I(<<"1">>), S(<<"N", "A">>)>>,          \* int column with one t
 LongTable(kind, p) ==
     [header |-> <<"r", "v", "x">>,
      rows   |-> [i \in 1..LongN |-> <<I(DecText(i)), IF i = p THEN kind[2] ELSE kind[1], I(<<"0">>)>>],
-     title  |-> T1, index |-> ""]
+     title  |-> T1, index |-> "", ints |-> "python"]
 LongTables(profile) == {LongTable(kind, p) : kind \in LongKinds, p \in 1..LongN}
 LongOther(t) ==
     LET vals == Range(Col(t, "v"))
         base == CHOOSE v \in vals : Cardinality({i \in 1..Len(t.rows) : t.rows[i][2] = v}) > 1
         odd  == CHOOSE v \in vals : v # base
-    IN [header |-> <<"v", "w">>, rows |-> << <<base, S(sA)>>, <<odd, S(sB)>> >>, title |-> T2, index |-> ""]
+    IN [header |-> <<"v", "w">>, rows |-> << <<base, S(sA)>>, <<odd, S(sB)>> >>, title |-> T2, index |-> "",
+        ints |-> "python"]
 
 -----------------------------------------------------------------------------
 (* Arguments                                                                  *)
@@ -420,7 +430,8 @@ NaturalJoinRenamed(px)  == NaturalJoinRenamedT(px) /\
 Init == /\ res = [init |-> TRUE]
         /\ done = FALSE
         /\ CASE Group = "unary"  -> /\ \E t \in UnaryTables(Profile) : \E ix \in UnaryIndexChoices(t) :
-                                             tab = WithIndex(t, ix)
+                                        \E ir \in (IF ix = "" THEN IntReprChoices(t) ELSE {"python"}) :
+                                             tab = [WithIndex(t, ix) EXCEPT !.ints = ir]
                                         /\ oth = "-"
              [] Group = "big"    -> tab \in BigTables(Profile) /\ oth = "-"
              [] Group = "long"   -> tab \in LongTables(Profile) /\ oth = LongOther(tab)
